@@ -45,6 +45,34 @@ CLAIMED = {
             "runtime monitor: real Dealer + n real Verifiers (Pedersen and Rabin), malicious deals sealed through the real encryption path (verif hook), enumerated deal faults x response behaviours x justification kinds/sequences x timeout positions, per-observer deliveries in seeded orders; oracle = ground-truth ledger kept by the harness",
             "Single deal faults and single response faults are enumerated exhaustively over verifier position (n=3,4; thorough to 6) and combined with every justification kind incl. two-step sequences (wrong-then-correct); multi-fault histories are sampled. After every delivered event the observer's DealCertified() is compared with the ledger: certified => >= t signed approvals or correctly justified complaints and no invalid justification ever processed; approvals only for good deals; forged/duplicate responses rejected; honest runs certify and any t certified deals recover the secret.",
             "faults are known by construction; Ed25519 suite; the verif hook seals harness-chosen plaintexts with the dealer's keys."),
+    "C07": ("exploration",
+            "runtime monitor: (t,n) sweep with exhaustive subsets/orders/nil patterns/surplus/duplicates against a math/big polynomial + Lagrange reference (three cross-checked routes), 9 groups",
+            "RecoverSecret/RecoverCommit/RecoverPriPoly/RecoverPubPoly are judged against the dealer's coefficients kept in math/big for every subset (all sizes, n<=6 quick / <=7 thorough; structured above) in several presentations; refusal below t; Check verdicts against reference membership on honest/shifted/negated/wrong-index/foreign shares; Add/Mul against evaluation and commitment.",
+            "math/big reference (power-sum evaluation, Newton divided differences, Lagrange at 0); group laws (C01) for commitments."),
+    "C09": ("exploration",
+            "runtime monitor: BLS verify-iff matrix, TBLS recovery from harness-dealt polynomials (expected output = signature of the group secret), BDN masks built by 11 routes, real CoSi protocol runs with mutated components; 8 (suite, group) combinations",
+            "All secrets are generated by the harness as big integers, so the unique expected signature is known. Recover must return exactly those bytes from any list containing >= t distinct valid partials (orders, duplicates, 10 junk kinds) and refuse otherwise; BDN aggregates verify under the aggregate key of exactly that mask and no other; CoSi verifies iff commitment, response and mask are those of the participants and the policy is met.",
+            "group laws and pairings (C01, C06) to compute expected signatures from harness-held secrets."),
+    "C12": ("exploration",
+            "runtime monitor: DSS sessions over keys from real Pedersen and Rabin DKG runs; every t-subset/order/combiner, 27 classes of injected partials; ledger of really delivered valid partials + math/big reference signature; eddsa/schnorr/crypto-ed25519 as verifiers",
+            "After every event ProcessPartialSig's result, EnoughPartialSig and Signature() are compared with the ledger and with the unique reference signature R||r+h*a; all combiners must output identical bytes that verify under eddsa.Verify, schnorr.Verify, dss.Verify and crypto/ed25519.Verify.",
+            "DKG runs are all-honest (C11 covers faults); math/big Lagrange; crypto/ed25519."),
+    "C13": ("exploration",
+            "runtime monitor: PVSS/DLEQ honest runs + single-field mutation and cross-trustee swap matrix over both phases, batch results compared with exactly the untouched indices, recovery with altered shares; 3 groups",
+            "The harness recomputes the global challenge itself; every field of every share/proof/key/commitment is mutated (+G, negate, random, identity, double, +1, zero, small-order shift) or swapped; each index is must-fail / must-pass / free by construction; recovery is checked with t and t-1 untouched shares; simulated-transcript forgeries exercise the Fiat-Shamir checks.",
+            "mutations known by construction; a changed global challenge legitimately invalidates untouched indices (free)."),
+    "C15": ("exploration",
+            "runtime monitor: 4 shuffles honest (exhaustive permutations for small k), honest proofs against altered statements, cheating provers that write well-formed transcripts for outputs the harness knows not to be re-encryption permutations (linear-combination forgeries, splices, all-equations-but-one), byte mutations",
+            "Ground truth from the decryption key held by the harness: the statement is true iff plaintext equality admits a perfect matching. The verifier must accept all honest proofs and reject every forged or altered one.",
+            "soundness is judged on explicit cheating-prover families only; Ed25519 and P-256."),
+    "C16": ("exploration",
+            "runtime monitor: ECIES / IBE-CCA / IBE-CPA / anon-set over length sweeps, keys, recipients; every ciphertext region bit-flipped or truncated, wrong keys, public-data forgeries; plaintext-in-clear scan",
+            "Round trip equality; lengths the scheme cannot protect must be refused at encryption; altered or truncated ciphertexts and wrong keys must yield an error for the authenticated schemes, never a different plaintext or a panic; no >= 8-byte run of a high-entropy plaintext may occur in the ciphertext.",
+            "hiding is checked only in the observable form the property gives (no plaintext block in the ciphertext)."),
+    "C17": ("exploration",
+            "runtime monitor: Pick/Embed/Hash on 22 groups with benign and adversarial streams, independent math/big membership models + q*P=O, replay of drawn bytes, Embed/Data losslessness, RFC 9380 vectors and a math/big model of edwards25519_XMD:SHA-512_ELL2_RO_",
+            "Every produced point is checked for membership by a model sharing no code with kyber and is then used; determinism by replaying exactly the drawn bytes on fresh and used receivers; Data() returns the stored bytes after encode/decode and Clone, and fails for out-of-range length fields; the three BLS12-381 back-ends agree.",
+            "math/big curve models; RFC 9380 appendix vectors embedded as data."),
 }
 
 PENDING = {}
